@@ -63,6 +63,8 @@ def handleMesh : List String → Option String
       if !(decide (1 ≤ pu) && decide (pu + 1 ≤ cu) && decide (Uu.length = cu + pu + 1) && isSortedB Uu
            && decide (1 ≤ pv) && decide (pv + 1 ≤ cv) && decide (Uv.length = cv + pv + 1) && isSortedB Uv
            && P.length == cu * cv) then return "ERR"
+      -- F-01b guard: an empty last span (the model does not step back at the domain end; x / 0 = 0)
+      if fn Uu (cu - 1) == fn Uu cu || fn Uv (cv - 1) == fn Uv cv then return "ERR"
       let m : TriMesh Rat := makeTriangleMesh su sv s
       let pts := m.uv.map fun p =>
         let x := surfacePoint pu pv (fn Uu) (fn Uv) cu cv P p.1 p.2
